@@ -184,7 +184,10 @@ func init() {
 	models["encoding/json.Unmarshal"] = func(x *Exec, s *State, in ssa.Instruction, a []Value, c *ssa.CallCommon) (Value, bool) {
 		mi, ok := c.Args[1].(*ssa.MakeInterface)
 		if !ok {
-			panic(unsupported("json.Unmarshal into a value whose type is not syntactically known"))
+			// the target's type is not syntactically known: anything reachable may change
+			x.note("json.Unmarshal into a value of unknown type: everything havocked")
+			s.havocAll()
+			return x.freshResult(s, c.Signature().Results().At(0).Type()), true
 		}
 		p := x.val(s, mi.X)
 		pt, ok := p.T.Underlying().(*types.Pointer)
